@@ -42,8 +42,10 @@ def make_scenario(rng):
                 ops.append(('bcancel', c))      # the broker cancels one of the channel's consumers unprompted
             elif role == 'consume' and k < 0.76:
                 ops.append(('cancel', c))       # the application cancels one of them
-            elif k < 0.75:
+            elif k < 0.70:
                 ops.append(('declare', c, 'q-%d-%d' % (t, len(ops))))
+            elif k < 0.75:
+                ops.append(('churn', c, 'churn-%d-%d' % (t, len(ops))))   # open a further channel, use it, close it
             elif k < 0.85:
                 ops.append(('qos', c, rng.randint(1, 9)))
             elif k < 0.93:
@@ -102,6 +104,12 @@ def run_one(args):
                         r = ch.queue.declare(op[2])
                         if r.get('queue') != op[2]:
                             out['wrong'].append(('declare', op[2], r))
+                    elif kind == 'churn':
+                        extra = conn.channel(rpc_timeout=60)
+                        r = extra.queue.declare(op[2])
+                        if r.get('queue') != op[2]:
+                            out['wrong'].append(('churn-declare', op[2], r))
+                        extra.close()
                     elif kind == 'qos':
                         r = ch.basic.qos(op[2])
                         if r != {}:
@@ -401,6 +409,12 @@ def check(rep):
     ]
     # every 4th run keeps line-level pre-emption inside the Rpc methods too (monitor only, no trace replay)
     jobs = [(make_scenario(rng), rng.randrange(1 << 30), None, i % 4 != 3) for i in range(200 if not thorough else 2500)]
+    # channels being opened and closed by several threads at once (the reply to a Channel.Close must reach the thread that
+    # is closing, whatever numbers are handed out meanwhile)
+    for i in range(40 if not thorough else 800):
+        threads = [[('churn', 0, 'churn-%d-%d' % (t, k)) if rng.random() < 0.8 else ('declare', 0, 'q-%d-%d' % (t, k))
+                    for k in range(rng.randint(2, 4))] for t in range(rng.randint(2, 3))]
+        jobs.append(({'roles': ['rpc'], 'threads': threads, 'frame_max': 4096, 'get_split': None}, rng.randrange(1 << 30), None, i % 2 == 0))
     results = par.pmap(run_one, jobs)
     lines, expect, owner = [], [], []
     for idx, ((sc, seed, _, atomic), r) in enumerate(zip(jobs, results)):
